@@ -8,6 +8,7 @@ NEXT Next
 INVARIANTS
   OrderedOncePerPass
   ReentryResumes
+  NoFilterSkipped
   DeniedNeverForwarded
   AtMostOneReply
   AnswerIsTheReply
